@@ -4,6 +4,7 @@ import RV.Proofs.TreeUpdate
 import RV.Proofs.TreeTerm
 import RV.Proofs.TreeArrRoot
 import RV.Proofs.Shear
+import RV.Proofs.Schedule
 import Mathlib.Algebra.Order.Field.Rat
 import Mathlib.Tactic.NormNum
 import Mathlib.Tactic.IntervalCases
@@ -423,6 +424,21 @@ theorem c15_update_forest {α : Type} (floor : K → Int) (hfl : ∀ x : K, (flo
     forest1.length = nx * ny * nz ∧
     ForestOK (psOf pos arr1) (rootCellOf rs nx ny nz) forest1 arr1.length :=
   updateA_forest floor hfl rs hrs nx ny nz hx hy hz pos flagged fuel forest0 arr0 forest1 arr1 hlen hgeo hbij hbox h
+
+/-! ## where the boundary check and the tree update sit in a step -/
+
+/-- The calls of `reb_simulation_step` and of the end of `reb_collision_search`, with their guards, are extracted from the
+    C source on every run (rv/extract_c15.py → RV/Gen/C15Schedule.lean).  Run on the abstract state (a flagged particle is
+    in the array / a particle is outside the box / `tree_needs_update`), for EVERY combination of tree or no tree gravity,
+    collision search none/direct/line/tree/linetree, boundary open/periodic/shear, particles leaving the box in either
+    drift, a resolver that removes a particle, and a particle flagged by the user beforehand: at the end of the step no
+    flagged particle is left in the particle array and no particle is outside the box.  (`reb_simulation_remove_particle`
+    only flags whenever a tree exists — whatever the collision search is; a tree exists iff gravity or the collision search
+    is tree based.) -/
+theorem c15_step_schedule_leaves_array_clean (g : Bool) (coll : StepSchedule.Coll) (b : StepSchedule.Boundary)
+    (o1 o2 cr uf : Bool) (hb : b ≠ .none) (huf : uf = true → (StepSchedule.Cfg.hasTree ⟨g, coll, b⟩) = true) :
+    (runStep ⟨g, coll, b⟩ ⟨o1, o2, cr⟩ uf).flagged = false ∧ (runStep ⟨g, coll, b⟩ ⟨o1, o2, cr⟩ uf).outside = false :=
+  step_schedule_clean g coll b o1 o2 cr uf hb huf
 
 /-! ## the hypotheses are satisfiable: concrete instances over ℚ -/
 
